@@ -126,7 +126,7 @@ def refs_in(v):
         for x in v:
             yield from refs_in(x)
     elif is_dictv(v):
-        for k in v["dict"]:
+        for k in sorted(v["dict"]):
             yield from refs_in(v["dict"][k])
 
 
